@@ -22,6 +22,7 @@ import (
 	"sync"
 
 	"github.com/google/gce-tcb-verifier/rotate"
+	"github.com/google/gce-tcb-verifier/sign/gcsca"
 	sops "github.com/google/gce-tcb-verifier/sign/ops"
 	styp "github.com/google/gce-tcb-verifier/sign/types"
 )
@@ -243,6 +244,17 @@ func c10Snapshots(c *Ctx, maxHist int) map[string]*e1Snap {
 		in := newInst("memkm", ca, &e1Snap{}, "", rng)
 		ctx := bootstrapCtx(in.ctx(false, nil))
 		must(rotate.Bootstrap(ctx))
+		// gcsca.Finalize uploads the two bootstrap certificates in Go's map iteration order, which decides the
+		// order of the two manifest entries; the model's initial state lists the root first, so bootstrap
+		// again (fresh store, same keys are fine) until the run happens to produce that order.
+		for try := 0; ca != "memca" && try < 200; try++ {
+			m, ok := parseManifest(in.objects()[gcsca.ManifestObjectName])
+			if ok && len(m.GetEntries()) == 2 && m.GetEntries()[0].GetKeyVersionName() == e1RootKey {
+				break
+			}
+			in = newInst("memkm", ca, &e1Snap{}, "", rng)
+			must(rotate.Bootstrap(bootstrapCtx(in.ctx(false, nil))))
+		}
 		out[key+"/0"] = in.snapshot()
 		for h := 0; h < maxHist; h++ {
 			ctx := rotateCtx(in.ctx(false, nil), "sig", in.nextSerial())
